@@ -447,11 +447,11 @@ def calculate_structure_function(phase, nbOfPoint=None, step=None):
             ndarray, float: values for the structure function of the data.
     '''
     if nbOfPoint is None:
-        nbOfPoint = phase.shape[1] / 4
+        nbOfPoint = phase.shape[0] / 4
     if step is None:
         step = 1
     step = int(step)
-    xm = int(numpy.min([nbOfPoint, phase.shape[1] / step - 1]))
+    xm = int(numpy.min([nbOfPoint, phase.shape[0] / step - 1]))
     sf_x = numpy.zeros(xm)
     for i in range(step, xm * step, step):
         sf_x[int(i / step)] = numpy.mean((phase[0:-i, :] - phase[i:, :])**2)
